@@ -93,12 +93,21 @@ pub fn make_cert(key: &[u8; 32], name: &str, variant: &CertVariant) -> Vec<u8> {
             params
                 .distinguished_name
                 .push(rcgen::DnType::CommonName, hex::encode(other));
-            params.serial_number = Some(rcgen::SerialNumber::from_slice(other));
+            // the other party's complete SubjectPublicKeyInfo (Ed25519 header + key), byte for
+            // byte, in fields that PRECEDE the certificate's real SPKI (serial number, a name
+            // attribute) and in one that follows it (an extension): whatever derives an identity
+            // from a certificate must take it from the authenticated SPKI, not from a look-alike
+            let mut spki = vec![0x30, 0x2a, 0x30, 0x05, 0x06, 0x03, 0x2b, 0x65, 0x70, 0x03, 0x21, 0x00];
+            spki.extend_from_slice(other);
+            params.serial_number = Some(rcgen::SerialNumber::from_slice(&spki));
+            if let Ok(bmp) = rcgen::BmpString::from_utf16be(spki.clone()) {
+                params.distinguished_name.push(rcgen::DnType::OrganizationName, rcgen::DnValue::BmpString(bmp));
+            }
             params
                 .custom_extensions
                 .push(rcgen::CustomExtension::from_oid_content(
                     &[1, 3, 6, 1, 4, 1, 99999, 1],
-                    other.to_vec(),
+                    spki,
                 ));
         }
         _ => {}
